@@ -12,7 +12,7 @@ TARGET = os.path.join(ROOT, 'target')
 ENV_BASE = dict(os.environ, CARGO_NET_OFFLINE='true')
 NCPU = os.cpu_count() or 16
 
-KINDS = {'C03': ['mpsc', 'spsc'], 'C04': ['spmc', 'spmcq'], 'C19': ['list', 'listseq']}
+KINDS = {'C03': ['mpsc', 'spsc'], 'C04': ['spmc', 'spmcq'], 'C19': ['list', 'listseq', 'listproto']}
 MIRI_MEM = '-Zmiri-disable-stacked-borrows -Zmiri-disable-validation -Zmiri-disable-data-race-detector -Zmiri-permissive-provenance -Zmiri-disable-isolation'
 MIRI_RACE = '-Zmiri-disable-stacked-borrows -Zmiri-permissive-provenance -Zmiri-disable-isolation'
 
